@@ -39,8 +39,9 @@ TOP = ["p", "q", "r", "m"]          # candidate top-level dirs besides the worki
 #   symdir      ln/N.h             T/N.h where D/ln -> T
 #   symfile     N.h                D/N.h is a symlink to a unit elsewhere
 #   abs         @R/X/N.h           X/N.h
-OPERAND_SPELLINGS = ["plain", "dot", "dslash", "sub", "subdot", "subdotdot", "updown", "symdir", "symfile", "abs"]
-OP_WEIGHTS = [6, 3, 2, 3, 1, 3, 2, 3, 3, 1]
+#   symup       lu/../N.h          T/N.h where D/lu -> T/n (the kernel), D/N.h (lexical ..-removal)
+OPERAND_SPELLINGS = ["plain", "dot", "dslash", "sub", "subdot", "subdotdot", "updown", "symdir", "symfile", "abs", "symup"]
+OP_WEIGHTS = [7, 3, 1, 3, 1, 3, 2, 3, 3, 1, 1]
 
 # spellings of a directory operand (-I/-S/-srcdir) and of the directory part of a command-line file
 DIR_SPELLINGS = ["abs", "rel", "trail", "dslash", "dot", "sym", "subup", "symup", "abssym"]
@@ -177,6 +178,19 @@ def _place(b, rng, name, spell, dirs, protect, cap):
             b.unit(name, real, protect)
             b.symlinks[d + "/" + base] = os.path.relpath("/R/" + real, "/R/" + d)
         return base
+    if spell == "symup":
+        # D/lu -> <T>/n for another dir T: "lu/../N.h" is T/N.h for the kernel, D/N.h lexically
+        for d in chosen:
+            others = [x for x in dirs if x != d and "/" not in x] or ["p"]
+            if d + "/lu" in b.symlinks or b.occupied(d + "/lu"):
+                continue
+            t = rng.choice(others)
+            b.add_dir(t + "/n")
+            b.symlinks[d + "/lu"] = os.path.relpath("/R/" + t + "/n", "/R/" + d)
+            for x in (t, d):
+                if rng.random() < 0.7 and not b.occupied(x + "/" + base):
+                    b.unit(name, x + "/" + base, protect)
+        return "lu/../" + base
     if spell == "abs":
         x = chosen[0] if chosen else "p"
         if not b.occupied(x + "/" + base):
@@ -343,7 +357,7 @@ def _gen_run(b, rng, tool, wd, main, extra_main, search_dirs, tops):
     if inter and rng.random() < 0.25:
         inv = rng.choice(tops + ["."])
         sd, sk = spell_dir(b, rng, wd, inv)
-        srcdir = dict(operand=sd, spell=sk)
+        srcdir = dict(operand=sd, spell=sk, dir=wd)
     noangles = inter and rng.random() < 0.3
     opts = []       # list of argv groups
     search = []
